@@ -181,7 +181,39 @@ int main()
       for (int d = 0; d < ndim; d++) { nx[d] = (int)rng.range(1, 3); dx[d] = rng.dyadic(0, 3, 2) + 0.25; x0[d] = rng.dyadic(-50, 50, 2); }
       if (ndim >= 2 && rng.coin(0.5)) { ang = VectorDouble(ndim, 0.); ang[0] = (double)rng.range(-170, 170); }
       DbGrid* g = DbGrid::create(nx, dx, x0, ang);
-      if (g) { g->addColumnsByConstant(1, 1.5, "val", ELoc::Z); roundTrip("DbGrid", g, [](const std::string& f) { return DbGrid::createFromNF(f, false); }, st); delete g; }
+      if (g)
+      {
+        g->addColumnsByConstant(1, 1.5, "val", ELoc::Z);
+        if (rng.coin(0.5)) { int uid = g->addColumnsByConstant(1, 0., "w2", rng.coin() ? ELoc::V : ELoc::UNKNOWN); for (int i = 0; i < g->getSampleNumber(); i++) g->setArray(i, uid, rng.coin(0.2) ? TEST : rng.dyadic(-50, 50, 3)); }
+        roundTrip("DbGrid", g, [](const std::string& f) { return DbGrid::createFromNF(f, false); }, st);
+        // model comparison of the file content: grid header + table part
+        {
+          int savedMode = nameMode; ASerializable::setContainerName(false, "", false); ASerializable::setPrefixName(""); nameMode = 0;
+          std::string f1 = dir + "/mg.nf"; g->dumpToNF(f1); std::string content = slurp(f1); unlink(f1.c_str());
+          int ncol = g->getColumnNumber(), nechg = g->getSampleNumber();
+          std::vector<std::string> lines; { std::istringstream ls(content); std::string l; while (std::getline(ls, l)) lines.push_back(l); }
+          std::string dimt, locs, names, vals; bool okf = (int)lines.size() >= 3 + ndim + nechg;
+          for (int d = 0; okf && d < ndim; d++)
+          {
+            std::istringstream ts(lines[3 + d]); std::string t; int k = 0; std::vector<std::string> tk; while (ts >> t) tk.push_back(t);
+            if (tk.size() != 4 || tk[0] != std::to_string(nx[d])) { okf = false; break; }     // the number of nodes is an integer: its text is known
+            for (auto& x : tk) { dimt += ((d || k) ? "," : "") + x; k++; }
+          }
+          for (int c = 0; c < ncol; c++)
+          {
+            ELoc lt; int li; bool ok = g->getLocatorByColIdx(c, &lt, &li);
+            std::string ln = ok ? (std::string(locNames[lt.getValue()]) + ((lt.getValue() == 8 || lt.getValue() == 9 || lt.getValue() == 10 || lt.getValue() == 11 || (lt.getValue() >= 13 && lt.getValue() <= 17) || lt.getValue() == 19 || lt.getValue() == 25) ? "" : std::to_string(li + 1))) : "NA";
+            locs += (c ? "," : "") + ln; names += (c ? "," : "") + g->getNameByColIdx(c);
+          }
+          int nl = (int)lines.size();
+          for (int i = 0; okf && i < nechg; i++) { std::istringstream ts(lines[nl - nechg + i]); std::string t; int k = 0; while (ts >> t) { vals += ((i || k) ? "," : "") + t; k++; } }
+          if (okf) { printf("f gridser %d %s %d %d %s %s %s =>%s\n", ndim, dimt.c_str(), ncol, nechg, locs.c_str(), names.c_str(), vals.empty() ? "-" : vals.c_str(), fileTokens(content).c_str()); st.hit("dbgrid_model_files"); }
+          else printf("f same DbGrid file-layout expected-header unexpected =>\n");
+          nameMode = savedMode;
+          if (nameMode == 1) { ASerializable::setContainerName(false, dir + "/", false); ASerializable::setPrefixName("px-"); }
+        }
+        delete g;
+      }
     }
     // ---- Model
     {
